@@ -4,6 +4,7 @@ CONSTANTS
   Procs = {p1, p2, p3, p4}
   MaxCrashes = 2
   Protocol = "atomic"
+  SignalDeath = "failure"
 INVARIANT TypeOK
 INVARIANT NoPartialLoad
 INVARIANT EveryoneGetsAKernel
